@@ -113,7 +113,7 @@ func Run(c *corr.Ctx) {
 		return
 	}
 	// (b) concurrent, black box, on the ring (worker goroutines recover panics)
-	for i, n := 0, c.N(150, 3000); i < n && !enough(); i++ {
+	for i, n := 0, c.N(150, 2000); i < n && !enough(); i++ {
 		runConcRing(c, genConc(c, "conc", true), budget)
 	}
 	for i, n := 0, c.N(6, 60); i < n && !enough(); i++ {
@@ -123,7 +123,7 @@ func Run(c *corr.Ctx) {
 		return
 	}
 	// deterministic Processor schedules
-	for i, n := 0, c.N(1500, 40000); i < n && !enough(); i++ {
+	for i, n := 0, c.N(1500, 20000); i < n && !enough(); i++ {
 		ac := genAsyncCase(c)
 		guarded(c, ac, "internal/asyncprocessor", func() { runAsyncDet(c, ac, "async-det") })
 	}
@@ -131,7 +131,7 @@ func Run(c *corr.Ctx) {
 		return
 	}
 	// (b) concurrent, black box, on the Processor
-	for i, n := 0, c.N(150, 3000); i < n && !enough(); i++ {
+	for i, n := 0, c.N(150, 2000); i < n && !enough(); i++ {
 		cc := genConc(c, "aconc", true)
 		if c.Rng.IntN(3) == 0 {
 			cc.FailAt = (1+c.Rng.IntN(cc.Producers))*1000000 + 1 + c.Rng.IntN(cc.PerProducer)
